@@ -6,10 +6,16 @@ from .. import common as K
 CATS = ["hasjrel", "hasjabs", "hasconst", "hasname", "haslocal", "hasfree", "hascompare"]
 RULE = ("finite domain enumerated completely: every opcode module reachable from xdis.op_imports x 256 opcode numbers x "
         "{name<->number bijection, category => defined and >= HAVE_ARGUMENT (unless the reference table has the same gap), "
-        "hasjrel/hasjabs disjoint, EXTENDED_ARG defined with the version's shift}; for the nine versions with a reference "
+        "hasjrel/hasjabs disjoint, opcodes whose documented name says jump (JUMP_*, POP_JUMP_*, FOR_ITER, FOR_LOOP, SETUP_LOOP/EXCEPT/FINALLY/WITH, CONTINUE_LOOP, CALL_FINALLY, SEND) categorised as jumps, EXTENDED_ARG defined with the version's shift}; for the nine versions with a reference "
         "interpreter additionally opmap, HAVE_ARGUMENT, EXTENDED_ARG and each category set vs `opcode` of that interpreter; "
         "table dump taken on several hosts and required identical. One evaluation = one (table, opcode, attribute) comparison "
         "or invariant; distinct = (table, opcode); non-trivial = defined opcodes")
+
+
+import re
+
+JUMP_NAME = re.compile(r"^(JUMP|JUMP_.*|POP_JUMP_.*|FOR_ITER|FOR_LOOP|SETUP_LOOP|SETUP_EXCEPT|SETUP_FINALLY|SETUP_WITH|SETUP_ASYNC_WITH|"
+                       r"CONTINUE_LOOP|CALL_FINALLY|SEND)$")
 
 
 def fixname(n):
@@ -57,6 +63,15 @@ def check_table(res, name, t, ref):
                     continue
                 res.mismatches.append({"key": "C09|%s|category-below-HAVE_ARGUMENT|%s|%s" % (name, cat, opname[op]),
                                        "detail": {"op": op, "HAVE_ARGUMENT": have}})
+    # opcodes CPython documents as jumps (by name, the same in every release that has them) must be categorised as jumps:
+    # the only way to judge tables of releases without an installed interpreter (1.0-2.6, 3.0-3.5, PyPy)
+    jumps = set(t.get("hasjrel") or []) | set(t.get("hasjabs") or [])
+    for n, num in sorted(opmap.items()):
+        if num < 256 and JUMP_NAME.match(n):
+            res.evaluations += 1
+            res.count("c09_jump_named_opcodes")
+            if num not in jumps:
+                res.mismatches.append({"key": "C09|%s|jump-by-name-not-categorised|%s" % (name, n), "detail": {"op": num}})
     res.evaluations += 1
     both = set(t.get("hasjrel") or []) & set(t.get("hasjabs") or [])
     if both:
